@@ -499,7 +499,17 @@ class UserSecurityModel(
         verify_authentication(message, credentials, security_params)
         verify_security_level(message, credentials)
         message = decrypt_message(message, credentials)
-        validate_usm_message(message)
+        try:
+            validate_usm_message(message)
+        except NotInTimeWindow as exc:
+            if credentials.auth is not None and not message.header.flags.auth:
+                # Only an authenticated report may make us change our notion
+                # of the remote engine (rfc3414#section-3.2, step 7b). Anybody
+                # can forge an unauthenticated one.
+                raise SnmpError(str(exc)) from exc
+            exc.engine_boots = security_params.authoritative_engine_boots
+            exc.engine_time = security_params.authoritative_engine_time
+            raise
         return message
 
     async def send_discovery_message(
